@@ -5,6 +5,7 @@ is re-executed once per crash point (before every seam event, and after the last
 each crash snapshot is judged under process death (kernel view) and under power loss
 (every metadata-journal prefix x three adversarial resolutions of un-synced data).
 """
+import os
 import random
 
 from simkit import core, shrinkers
@@ -319,6 +320,47 @@ def run_case(case):
                     out.probe('crash_after_publish')
             if nontriv:
                 out.nontrivial.append(core.h64([_wl_key(case), k]))
+    # ---- crash points of FAILING saves: the process may also die while an error is being handled ----
+    if out.violation is None and not prior and not case.get('reuse'):
+        from . import c05
+        pre = c05.Pre(case)
+        plans = case.get('crash_faults')
+        if plans is None:
+            cand = [(key, f) for _k, _lab, key, f in c05._faultable(base.sim.occ, base.sim.trace, pre)
+                    if f[0] in ('errno', 'disk-full')]
+            frng = random.Random(core.mix(case.get('power_seed', 0), 77))
+            nf = case.get('n_crash_faults', 3)
+            plans = [[key[0], key[1], f[0], f[1]] for key, f in (frng.sample(cand, nf) if len(cand) > nf else cand)]
+        for kind_, occ_, fk, arg in plans:
+            fplan = {(kind_, occ_): (fk, arg)}
+            fr = S.run_save(case, simfs.Plan(faults=fplan), None)
+            if not fr.sim.fired:
+                continue
+            pts = case.get('crash_points_faulted')
+            for k in (pts if pts is not None else range(fr.sim.n + 1)):
+                r = S.run_save(case, simfs.Plan(crash_at=k, faults=fplan), log)
+                crash_runs += 1
+                out.steps += r.sim.n
+                if not r.crashed:
+                    continue
+                snap = r.sim.crashed
+                kd, detail = r.sim.trace[k]
+                out.fault('crash-in-failing-save')
+                note = ' of a save failing with %s at %s #%d' % (
+                    'disk full' if fk == 'disk-full' else os.strerror(arg) if isinstance(arg, int) else fk, kind_, occ_)
+                n_img = _judge_snapshot(out, snap, k, kd, detail, dest, old, new, case,
+                                        {'faulted': True, 'note': note})
+                if n_img < 0:
+                    out.extra['found_crash_fault'] = [[kind_, occ_, fk, arg], k]
+                    break
+                images += n_img
+                if _check_order(r, dest, new, out, k):
+                    out.extra['found_crash_fault'] = [[kind_, occ_, fk, arg], k]
+                    break
+                if any(ev_k > fr.sim.fired[0][0] for ev_k in (k,)):
+                    out.probe('crash_during_error_handling')
+            if out.violation is not None:
+                break
     writes = [d for kd, d in base.sim.trace if kd == 'raw.write']
     flushes = 0
     cnt = 0
@@ -337,6 +379,45 @@ def run_case(case):
     out.sim_time = float(out.steps)
     out.digest = log.digest()
     return out
+
+
+def _judge_snapshot(out, snap, k, kind, detail, dest, old, new, case, sig_extra):
+    """(P) and (S) views of one crash snapshot.  -> number of power-loss images judged, or -1 after a violation."""
+    pv = snap.process_view(dest)
+    if not _allowed(pv, old, new):
+        out.fail('partial-dest-after-process-death', k,
+                 'process dies before event %d (%s %r)%s: destination reads %s; old %s, new %s'
+                 % (k, kind, detail, sig_extra.get('note', ''), _fmt(pv), _fmt(old), _fmt(new)),
+                 view='process-death', **{x: y for x, y in sig_extra.items() if x != 'note'})
+        return -1
+    rng = random.Random(core.mix(case.get('power_seed', 0), k))
+    images = 0
+    for j in snap.meta_prefixes():
+        d = snap.dir_after_prefix(j)
+        ino = d.get(dest)
+        if ino is None:
+            images += 1
+            if old is not None:
+                bad = (j, 'dir', None)
+                break
+            continue
+        bad = None
+        for label, content in snap.data_choices(ino, rng):
+            images += 1
+            if not _allowed(content, old, new):
+                bad = (j, label, content)
+                break
+        if bad:
+            break
+    else:
+        return images
+    out.fail('partial-dest-after-power-loss', k,
+             'power fails before event %d (%s %r)%s; %d of %d journal records durable, un-synced data: %s; '
+             'destination reads %s; old %s, new %s'
+             % (k, kind, detail, sig_extra.get('note', ''), bad[0], len(snap.journal), bad[1], _fmt(bad[2]),
+                _fmt(old), _fmt(new)),
+             view='power-loss', **{x: y for x, y in sig_extra.items() if x != 'note'})
+    return -1
 
 
 def _wl_key(case):
@@ -375,6 +456,17 @@ def _check_order(r, dest, new, out, step):
 
 
 def shrink(case, fails):
+    c = dict(case)
+    o = run_case(c)
+    if o.violation is not None and 'found_crash_fault' in o.extra and 'crash_faults' not in c:
+        plan, k = o.extra['found_crash_fault']
+        c2 = dict(c, crash_faults=[plan], crash_points_faulted=[k], crash_points=[])
+        if fails(c2):
+            return _shrink_rest(c2, fails)
+    return _shrink_rest(c, fails)
+
+
+def _shrink_rest(case, fails):
     c = dict(case)
     o = run_case(c)
     if o.violation is not None and isinstance(o.violation['step'], int) and 'crash_points' not in c:
